@@ -32,6 +32,9 @@ Definition explore (o : oracle) (tol : Qc) (top : bool) (stP : nstate) (q : rows
        | _ => (lp_keeps (o_lp o (k_lp k) q), lp_inc k)
        end.
 
+(* arena index of a node created during the composition: fresh in the code, and never 0 (0 is the root) *)
+Definition new_idx : nat := 1.
+
 Definition pexists (t : ptree) : bool := match t with U => false | _ => true end.
 
 (* the subtree that ends up at a position with path rows q, built from the lhs subtree L and the rhs terminal
@@ -55,10 +58,10 @@ Fixpoint graftp (o : oracle) (tol : Qc) (s : schema) (tf : aff) (L : ptree) (top
         if e1 then (let '(b, k') := explore o tol top st q1 k1 in (b || negb keep0, k')) else (false, k1) in
       if e0 && e1 && xorb keep0 keep1 then
         (* created == 1 && created + skipped == K: the kept child takes this node's place *)
-        graftp o tol s tf (if keep1 then l1 else l0) false Indet 0 q k2
+        graftp o tol s tf (if keep1 then l1 else l0) false Indet new_idx q k2
       else
-        let '(c1, k3) := if keep1 then graftp o tol s tf l1 false Indet 0 q1 k2 else (CU, k2) in
-        let '(c0, k4) := if keep0 then graftp o tol s tf l0 false Indet 0 q0 k3 else (CU, k3) in
+        let '(c1, k3) := if keep1 then graftp o tol s tf l1 false Indet new_idx q1 k2 else (CU, k2) in
+        let '(c0, k4) := if keep0 then graftp o tol s tf l0 false Indet new_idx q0 k3 else (CU, k3) in
         (CN i false p' st c0 c1, k4)
   | D p _ => (CU, k)   (* not a binary decision: outside the model (the code panics on labels >= 2) *)
   end.
